@@ -388,6 +388,45 @@ def _check(ctx, tmp):
                 ctx.violation("written-table-rates", "%s: %s" % (nm, e), "%r (from the file's own rates)" % float(want_v),
                               "status=%r value=%r %s" % (st, v, err), how)
 
+    # ---- a table with unusable rows in the MIDDLE (rate 0, negative, nan): those codes simply do not exist; every other
+    # row keeps ITS OWN rate (table-consistency for the rows that are usable)
+    dt = []
+    for i, (s_, n_, r_) in enumerate(wt[: ctx.n(16, 40)]):
+        dt.append((s_, n_, r_))
+        if i in (2, 5, 6, 11):
+            dt.append(("z" + rand_word(3), "bad" + rand_word(5), [0.0, -1.5, float("nan"), -0.0][len(dt) % 4]))
+    dtext = "".join("%s,%s,%r\n" % row for row in dt)
+    good = [(s_, n_, r_) for s_, n_, r_ in dt if r_ > 0]
+    drates = rate_table(good)
+    dexprs, dmeta = [], []
+    gcodes = [s_ for s_, n_, r_ in good]
+    for a in gcodes:
+        b = rng.choice([c for c in gcodes if c != a])
+        dexprs.append("3 %s to %s" % (a, b)); dmeta.append((Fraction(3), a, b))
+    dbad = [s_ for s_, n_, r_ in dt if not r_ > 0]
+    for bcode in dbad:
+        dexprs.append("1 %s to usd" % bcode); dmeta.append(None)
+    dhomes = [("damaged-rows", mkhome(root, "w-damaged", currency=dtext.encode()), "eur"),
+              ("damaged-rows-own-base", mkhome(root, "w-damaged-b", config="base-currency=%s\n" % gcodes[-1], currency=dtext.encode()), gcodes[-1])]
+    with ThreadPoolExecutor(max_workers=2) as ex:
+        douts = list(ex.map(lambda h: run_batch(h[1], dexprs, tmp, "d-" + h[0]), dhomes))
+    for (nm, home, want), out in zip(dhomes, douts):
+        how = "currency file %r...; fresh process" % dtext[:120]
+        if "crash" in out:
+            ctx.violation("damaged-table-crash", nm, "starts", out["crash"], how)
+            continue
+        for e, mt, (st, v, err) in zip(dexprs, dmeta, out["results"]):
+            ctx.count("%s:%s" % (nm, e), bucket="damaged-table")
+            if mt is None:
+                if st == 0:
+                    ctx.violation("damaged-row-usable", "%s: %s" % (nm, e), "an error (the row has no usable rate)", repr(v), how)
+                continue
+            x, a, b = mt
+            want_v = x * Fraction(drates[b]) / Fraction(drates[a])
+            if st != 0 or not close(v, want_v):
+                ctx.violation("damaged-table-rates", "%s: %s" % (nm, e), "%r (from the rows' own rates)" % float(want_v),
+                              "status=%r value=%r %s" % (st, v, err), how)
+
 
 def fr(q):
     q = Fraction(q)
